@@ -66,9 +66,13 @@ func DecodePicTimingHevcSEI(sd *SEIData, exPar HEVCPicTimingParams) (SEIMessage,
 					pt.DuCommonCpbRemovalDelayIncrementMinus1 = uint32(br.Read(int(exPar.DuCpbRemovalDelayIncrementLengthMinus1) + 1))
 				}
 				for i := uint32(0); i <= pt.NumDecodingUnitsMinus1; i++ {
-					pt.NumNalusInDuMinus1[i] = uint32(br.ReadExpGolomb())
+					pt.NumNalusInDuMinus1 = append(pt.NumNalusInDuMinus1, uint32(br.ReadExpGolomb()))
 					if !pt.DuCommonCpbRemovalDelayFlag && i < pt.NumDecodingUnitsMinus1 {
-						pt.DuCpbRemovalDelayIncrementMinus1[i] = uint32(br.Read(int(exPar.DuCpbRemovalDelayIncrementLengthMinus1) + 1))
+						pt.DuCpbRemovalDelayIncrementMinus1 = append(pt.DuCpbRemovalDelayIncrementMinus1,
+							uint32(br.Read(int(exPar.DuCpbRemovalDelayIncrementLengthMinus1)+1)))
+					}
+					if br.AccError() != nil {
+						break // payload ended before all announced decoding units
 					}
 				}
 			}
